@@ -2061,6 +2061,41 @@ impl<'a, 'ast> Typecheck<'a, 'ast> {
     ) {
         self.enter_scope();
 
+        // A hole in a type definition would become a type variable that the alias keeps after the
+        // substitution it belongs to has been cleared
+        for bind in bindings.iter_mut() {
+            struct ReplaceHoles {
+                holes: Vec<Span<BytePos>>,
+            }
+
+            impl<'d, 'ast> MutVisitor<'d, 'ast> for ReplaceHoles {
+                type Ident = Symbol;
+
+                fn visit_ast_type(&mut self, typ: &'d mut AstType<'ast, Symbol>) {
+                    use crate::base::pos::HasSpan;
+                    match **typ {
+                        Type::Hole => {
+                            self.holes.push(typ.span());
+                            **typ = Type::Error;
+                        }
+                        // The type fields of a record type (`{ MyInt }`) are looked up by name,
+                        // the hole they carry is not one the user wrote
+                        Type::ExtendTypeRow { ref mut rest, .. } => self.visit_ast_type(rest),
+                        _ => ast::walk_mut_ast_type(self, typ),
+                    }
+                }
+            }
+
+            let mut visitor = ReplaceHoles { holes: Vec::new() };
+            visitor.visit_ast_type(bind.alias.value.unresolved_type_mut());
+            for span in visitor.holes {
+                self.error(
+                    span,
+                    TypeError::Message("Type holes are not allowed in type definitions".into()),
+                );
+            }
+        }
+
         // Rename the types so they get a name which is distinct from types from other
         // modules
         for bind in bindings.iter_mut() {
